@@ -68,6 +68,9 @@ def _hook(ev, args):
         if st["mode"] == "fault":
             st["armed"] = False
             raise OSError(errno.EIO, "injected by vf", a0)
+        if st["mode"] == "interrupt":
+            st["armed"] = False
+            raise KeyboardInterrupt("injected by vf")  # Ctrl-C: not an Exception, so `except Exception` clean-up code does not run
 
 
 def scenarios():
@@ -216,6 +219,8 @@ class C14(Prop):
                     rc = e.code if isinstance(e.code, int) else 1
                 except OSError:
                     rc = 70  # the injected error escaped main(): still a failure exit for a real process
+                except KeyboardInterrupt:
+                    rc = 130
         finally:
             _state["armed"] = False
             self.api.reformat_text = orig_rt
@@ -344,6 +349,13 @@ class C14(Prop):
                 col.distinct(sc["name"], "fault", k)
                 col.hist("fault_points", f"{ev[0]}:{ev[1]}:{self.cls(ev[2])}")
                 self.judge(sc, start, clean, self.snapshot(root), {"monitor": "fault", "k": k, "event": list(ev)}, col, case)
+                # interrupt (KeyboardInterrupt raised at the same point)
+                self.setup_dir(sc, root)
+                self.run_cli(sc, root, k, "interrupt")
+                col.case()
+                col.mon("fault")
+                col.count("interrupt_points")
+                self.judge(sc, start, clean, self.snapshot(root), {"monitor": "fault", "k": k, "event": list(ev), "as": "KeyboardInterrupt"}, col, case)
                 # crash
                 self.setup_dir(sc, root)
                 pid = os.fork()
